@@ -213,8 +213,9 @@ def gen_c14_staged(rng):
     other = rng.choice([d for d in LIN if d != dim])
     return dict(edge='c14-staged', u0=u0, u1=u1, uo=LIN[other][0][0], x=rng.choice([1, 2.5, 40, 300]), y=rng.choice([0, 3, 0.5, 120, -7]),
                 what=rng.choice(['mod-other-unit', 'mod-other-unit', 'typed-other-unit', 'mod-no-unit', 'mod-twice', 'bool-false', 'str-empty',
-                                 'other-dtype', 'other-dimension', 'constant', 'constant-typed']),
-                grouped=rng.random() < 0.4, extra_node=rng.random() < 0.5)
+                                 'other-dtype', 'other-dtype-str-that-reads-as-a-number', 'other-dtype-bool', 'other-dtype-float-for-str',
+                                 'other-dimension', 'constant', 'constant-typed']),
+                grouped=rng.random() < 0.4, extra_node=rng.random() < 0.5, single=rng.random() < 0.4)
 
 
 def run_c14_staged(c, ctx):
@@ -245,6 +246,12 @@ def run_c14_staged(c, ctx):
         B.append('label = ""'); exp['label'] = ('', None)
     elif what == 'other-dtype':
         B.append('%s int = 3 %s' % (name, u0)); must_fail = True
+    elif what == 'other-dtype-str-that-reads-as-a-number':
+        B.append('%s str = "5"' % name); must_fail = True            # the text would even cast to the node's type
+    elif what == 'other-dtype-bool':
+        B.append('%s bool = true' % name); must_fail = True
+    elif what == 'other-dtype-float-for-str':
+        B.append('label float = 2.5'); must_fail = True
     elif what == 'other-dimension':
         B.append('%s = 3 %s' % (name, c['uo'])); must_fail = True
     elif what == 'constant':
@@ -252,8 +259,29 @@ def run_c14_staged(c, ctx):
     elif what == 'constant-typed':
         B.append('%s float = %r %s' % (name, y, u0)); must_fail = True
     tA, tB = '\n'.join(A) + '\n', '\n'.join(B) + '\n'
-    classes = ['edge:second-stage-assignment', 'edge:second-stage:' + what]
+    classes = ['edge:second-stage-assignment' if not c.get('single') else 'edge:closed-form-assignment-in-one-text', 'edge:second-stage:' + what]
     devs = []
+    if c.get('single'):
+        # the same program in ONE text
+        st1, env, keep = parse(ctx, tA + tB, 'e14s1')
+        sample1 = dict(text=tA + tB, expected='parse() must fail' if must_fail else {k: list(v) for k, v in exp.items()})
+        if must_fail:
+            if st1 == 'ok':
+                devs.append(dev('closed-form:illegal-assignment-accepted(%s)' % what, dict(text=tA + tB, data=repr(env.data(Format.TUPLE))[:300])))
+        elif st1 != 'ok':
+            devs.append(dev('closed-form:legal-assignment-rejected(%s)' % what, dict(text=tA + tB, exc=repr(env)[:200])))
+        else:
+            d = env.data(Format.TUPLE)
+            bad = {}
+            for k, (ev, eu) in exp.items():
+                o = d.get(k)
+                ov, ou = (o[0], o[1]) if isinstance(o, tuple) else (o, None)
+                same = (ov == ev and type(ov) == type(ev)) if isinstance(ev, (str, bool)) else (not isinstance(ov, (str, bool)) and ov is not None and close(ov, ev, 1e-9, 1e-12))
+                if k not in d or ou != eu or not same:
+                    bad[k] = dict(observed=o, expected=(ev, eu))
+            if bad or sorted(d) != sorted(exp):
+                devs.append(dev('closed-form:result-is-not-one-node-with-the-last-value-in-the-definition-unit(%s)' % what, dict(text=tA + tB, differing=bad, keys=list(d))))
+        return outcome(classes=classes, nontrivial=True, fp='e14s1 ' + tA + tB, dev=devs, monitors={'edge_programs': 1}, sample=sample1)
     st, env1, keep1 = parse(ctx, tA, 'e14sA')
     sample = dict(stage_1=tA, stage_2=tB, expected='parse() of stage 2 must fail' if must_fail else {k: list(v) for k, v in exp.items()})
     if st != 'ok':
